@@ -36,17 +36,30 @@ func runC09(c *core.Ctx) {
 	info := p.TypesInfo
 
 	// ------------------------------------------------------------ atoms
-	c.Doc("C09.atoms", "grammar letters = nodifyBasicType cases = constructor signatures", 16)
-	bt := funcDecl(p, "", "basicType")
-	nb := funcDecl(p, "", "nodifyBasicType")
-	if bt == nil || nb == nil {
-		c.Undecided("C09.atoms", "meta/signature.basicType", token.NoPos, "basicType / nodifyBasicType not found")
+	c.Doc("C09.atoms", "grammar letters = rows of the basic-type builder = constructor signatures", 16)
+	prods := productionsOf(p)
+	var basic *production
+	for i := range prods {
+		if prods[i].Kind == "OrdChoice" && prods[i].AllAtom && len(prods[i].Atoms) >= 2 {
+			basic = &prods[i]
+		}
+	}
+	if basic == nil || funcDeclOf(p, basic.Builder) == nil {
+		c.Undecided("C09.atoms", "meta/signature.basicType", token.NoPos, "the production of the basic types (an ordered choice of atoms with a node builder) was not found")
 	} else {
+		nb := funcDeclOf(p, basic.Builder)
 		atoms := map[string]bool{}
-		for _, a := range atomsOf(info, bt.Body) {
+		for _, a := range basic.Atoms {
 			atoms[a] = true
 		}
-		cases := switchCaseCalls(info, nb)
+		cases := map[string]string{}
+		for _, e := range dispatchTable(p, nb) {
+			if e.Target != nil {
+				cases[e.Key] = e.Target.Name()
+			} else {
+				cases[e.Key] = ""
+			}
+		}
 		ctors := map[string]ctorRow{}
 		for _, r := range ctorTable(c) {
 			ctors[r.Func] = r
@@ -56,7 +69,7 @@ func runC09(c *core.Ctx) {
 			ctor, ok := cases[a]
 			switch {
 			case !ok:
-				c.Fail("C09.atoms", key, bt.Pos(), fmt.Sprintf("the grammar accepts %q but nodifyBasicType has no case for it: a grammar-valid signature is rejected", a))
+				c.Fail("C09.atoms", key, basic.Pos, fmt.Sprintf("the grammar accepts %q but %s has no row for it: a grammar-valid signature is rejected", a, nb.Name.Name))
 			case ctors[ctor].Signature != a:
 				c.Fail("C09.atoms", key, nb.Pos(), fmt.Sprintf("%q is parsed into %s, whose Signature() is %q: the printed form differs from the input", a, ctor, ctors[ctor].Signature))
 			default:
@@ -65,56 +78,38 @@ func runC09(c *core.Ctx) {
 		}
 		for k := range cases {
 			if !atoms[k] {
-				c.Fail("C09.atoms", "case:"+k, nb.Pos(), fmt.Sprintf("nodifyBasicType has a case %q that the grammar never produces", k))
+				c.Fail("C09.atoms", "case:"+k, nb.Pos(), fmt.Sprintf("%s has a row %q that the grammar never produces", nb.Name.Name, k))
 			}
 		}
 	}
 
 	// ------------------------------------------------------------ tokens
 	c.Doc("C09.tokens", "printer tokens = grammar tokens for list, map, tuple, struct; struct-name patterns consistent", 5)
-	initFn := funcDecl(p, "", "init")
-	if initFn == nil {
-		c.Undecided("C09.tokens", "meta/signature.init", token.NoPos, "init not found")
-	} else {
-		// productions: assignments xType = parsec.And(...), and the typeMemberList declaration
-		prods := map[string][]string{}
-		ast.Inspect(initFn.Body, func(n ast.Node) bool {
-			switch x := n.(type) {
-			case *ast.AssignStmt:
-				if len(x.Lhs) == 1 && len(x.Rhs) == 1 {
-					if id, ok := x.Lhs[0].(*ast.Ident); ok {
-						prods[id.Name] = atomsOf(info, x.Rhs[0])
-					}
-				}
-			case *ast.ValueSpec:
-				for i, nm := range x.Names {
-					if i < len(x.Values) {
-						prods[nm.Name] = atomsOf(info, x.Values[i])
-					}
-				}
+	{
+		// the production of a composite type is the sequence whose node builder constructs that type
+		built := map[string][]production{}
+		for _, pr := range prods {
+			if pr.Kind != "And" {
+				continue
 			}
-			return true
-		})
-		type pr struct {
-			typ, prod string
-			extra     []string // atoms of sub-productions spliced in (member list)
+			bf := c.Prog.FuncValue(pr.Builder)
+			for _, tn := range keysOf(concreteReturned(bf, 0)) {
+				built[tn] = append(built[tn], pr)
+			}
 		}
-		for _, q := range []pr{{"ListType", "arrayType", nil}, {"MapType", "mapType", nil}, {"TupleType", "tupleType", nil}, {"StructType", "structType", prods["typeMemberList"]}} {
-			fd := funcDecl(p, q.typ, "Signature")
-			key := "meta/signature." + q.typ + ".Signature"
+		for _, typ := range []string{"ListType", "MapType", "TupleType", "StructType"} {
+			fd := funcDecl(p, typ, "Signature")
+			key := "meta/signature." + typ + ".Signature"
 			if fd == nil {
 				c.Undecided("C09.tokens", key, token.NoPos, "printer not found")
 				continue
 			}
-			want := prods[q.prod]
-			if len(want) == 0 {
-				c.Undecided("C09.tokens", key, fd.Pos(), "grammar production "+q.prod+" not found in init()")
+			if len(built[typ]) != 1 {
+				c.Undecided("C09.tokens", key, fd.Pos(), fmt.Sprintf("%d grammar productions build a %s (expected one sequence with a node builder returning it)", len(built[typ]), typ))
 				continue
 			}
-			// splice the member-list atoms before the last atom (">")
-			if len(q.extra) > 0 {
-				want = append(append(append([]string{}, want[:len(want)-1]...), q.extra...), want[len(want)-1])
-			}
+			want := built[typ][0].Atoms
+			prodName := built[typ][0].Builder.Name()
 			// printer tokens: every format / literal of the function; each distinct print statement must be a
 			// (possibly partial) rendering of the production
 			lits := stringLitsIn(info, fd.Body)
@@ -134,7 +129,7 @@ func runC09(c *core.Ctx) {
 				// must be a subsequence of the grammar's tokens (optional parts may be omitted, e.g. no members)
 				if !isSubsequence(g, glue(want)) {
 					ok = false
-					why = fmt.Sprintf("the printer emits %q, the grammar production %s expects tokens %s", l, q.prod, fmtSet(want))
+					why = fmt.Sprintf("the printer emits %q, the grammar production built by %s expects tokens %s", l, prodName, fmtSet(want))
 				}
 				if g == glue(want) {
 					full = true
@@ -144,7 +139,7 @@ func runC09(c *core.Ctx) {
 				g := glue(acc)
 				if !isSubsequence(g, glue(want)) && g != "," {
 					ok = false
-					why = fmt.Sprintf("the printer emits the tokens %s, the grammar production %s expects %s", fmtSet(acc), q.prod, fmtSet(want))
+					why = fmt.Sprintf("the printer emits the tokens %s, the grammar production built by %s expects %s", fmtSet(acc), prodName, fmtSet(want))
 				}
 				if strings.ReplaceAll(g, ",", "") == strings.ReplaceAll(glue(want), ",", "") {
 					full = true
@@ -152,13 +147,28 @@ func runC09(c *core.Ctx) {
 			}
 			if ok && !full {
 				ok = false
-				why = fmt.Sprintf("no print statement renders the whole production %s (%s)", q.prod, fmtSet(want))
+				why = fmt.Sprintf("no print statement renders the whole production built by %s (%s)", prodName, fmtSet(want))
 			}
 			c.Check(ok, "C09.tokens", key, fd.Pos(), "prints "+fmtSet(want), why)
 		}
 	}
 	// struct name patterns
 	sn := funcDecl(p, "", "structName")
+	if sn == nil {
+		// by role: the function building the ordered token scanner
+		for _, f := range p.Syntax {
+			for _, d := range f.Decls {
+				if fd, ok := d.(*ast.FuncDecl); ok && fd.Body != nil && sn == nil {
+					ast.Inspect(fd.Body, func(n ast.Node) bool {
+						if call, ok := n.(*ast.CallExpr); ok && isParsecCall(info, call, "OrdTokens") {
+							sn = fd
+						}
+						return true
+					})
+				}
+			}
+		}
+	}
 	if sn == nil {
 		c.Undecided("C09.tokens", "meta/signature.structName", token.NoPos, "structName not found")
 	} else {
@@ -237,20 +247,8 @@ func ruleParseEntry(c *core.Ctx) {
 		return ok && bi.Name() == "len"
 	}
 	is1 := func(v ssa.Value) bool { k, ok := core.ConstInt(v); return ok && k == 1 }
-	okEnd, okOne := true, true
-	n := 0
-	for _, ret := range core.Returns(fn) {
-		if !successReturn(ret) {
-			continue
-		}
-		n++
-		if !core.Guarded(fn, ret, core.IsTrue(isEndof)) {
-			okEnd = false
-		}
-		if !core.Guarded(fn, ret, core.Eq(isLen, is1)) {
-			okOne = false
-		}
-	}
+	okEnd, n := successGuarded(c, fn, core.IsTrue(isEndof), 0)
+	okOne, _ := successGuarded(c, fn, core.Eq(isLen, is1), 0)
 	c.Check(okEnd && n > 0, rule, "meta/signature.Parse/end-of-input", fn.Pos(), "success only when the scanner is at the end of the input", "Parse accepts a signature followed by unparsed text: the printed form is not the input")
 	c.Check(okOne && n > 0, rule, "meta/signature.Parse/one-type", fn.Pos(), "success only when exactly one type was parsed", "Parse accepts an input that yields zero or several types")
 	// no package-level state besides the grammar
@@ -259,7 +257,7 @@ func ruleParseEntry(c *core.Ctx) {
 		for _, in := range b.Instrs {
 			for _, op := range in.Operands(nil) {
 				if g, ok := (*op).(*ssa.Global); ok && g.Pkg == fn.Pkg {
-					if g.Name() != "typeSignature" {
+					if pt, isPtr := g.Type().(*types.Pointer); !isPtr || !core.TypeIs(pt.Elem(), "goparsec", "Parser") {
 						bad = "Parse uses the package-level variable " + g.Name() + " (at " + c.Pos(in.Pos()) + "): a cached result is shared between callers, and RegisterTo renames struct types in place, so a later Parse of the same string prints differently"
 					}
 				}
